@@ -7,6 +7,7 @@
 package vrt
 
 import (
+	"os"
 	"fmt"
 	"path/filepath"
 	"runtime"
@@ -49,7 +50,8 @@ type Thread struct {
 	ready  func() bool // nil => runnable
 	done   bool
 	killed bool
-	idle   bool // waiting for quiescence of everything else
+	idle   bool     // waiting for quiescence of everything else
+	vc     []uint32 // vector clock (Options.HB)
 }
 
 type timer struct {
@@ -74,6 +76,7 @@ type Options struct {
 	SelChoice bool  // branch on which ready select case fires
 	TraceSync bool
 	StartNow  int64 // initial virtual time (ns since Base)
+	HB        bool  // track happens-before and check instrumented map accesses (see hb.go)
 }
 
 type RT struct {
@@ -91,16 +94,19 @@ type RT struct {
 	exited   chan struct{}
 	ended    bool
 
-	Points   int64
-	Switches int64
-	Choices  int64
-	Crash    *Crash
-	Deadlock string
-	Diverged bool
-	SyncTrace []string
-	Log      []string // free-form observations appended by harnesses (deterministic)
-	hooks    map[string][]func()
-	Locals   map[string]interface{} // per-execution scratch for shims (vnet, vos)
+	Points     int64
+	Switches   int64
+	Choices    int64
+	Crash      *Crash
+	Deadlock   string
+	Diverged   bool
+	SyncTrace  []string
+	Log        []string // free-form observations appended by harnesses (deterministic)
+	hooks      map[string][]func()
+	Locals     map[string]interface{} // per-execution scratch for shims (vnet, vos)
+	addrClocks map[uintptr]*SyncClock
+	maps       map[uintptr]*mapState
+	mapRace    string
 }
 
 var R *RT
@@ -114,6 +120,9 @@ const defaultMaxPoints = 50_000_000
 func Run(opt Options, root func()) *RT {
 	if opt.MaxPoints == 0 {
 		opt.MaxPoints = defaultMaxPoints
+	}
+	if hbAll {
+		opt.HB = true
 	}
 	rt := &RT{now: opt.StartNow, opt: opt, finished: make(chan struct{}, 1), exited: make(chan struct{}, 4096), hooks: map[string][]func(){}, Locals: map[string]interface{}{}}
 	if R != nil {
@@ -130,8 +139,14 @@ func Run(opt Options, root func()) *RT {
 	<-rt.finished
 	rt.killAll()
 	R = nil
+	if hbAll && rt.mapRace != "" {
+		fmt.Fprintln(os.Stderr, "MAPRACE:", rt.mapRace)
+	}
 	return rt
 }
+
+// VERIF_HB_ALL: experiment switch, turns the happens-before map check on for every execution and prints reports.
+var hbAll = os.Getenv("VERIF_HB_ALL") != ""
 
 var onRun []func(*RT)
 
@@ -201,6 +216,11 @@ func (rt *RT) spawn(name string, f func()) {
 		return
 	}
 	t := rt.newThread(name)
+	if rt.hbOn() {
+		// the child starts with what its creator knew
+		rt.cur.tick()
+		t.vc = append([]uint32{}, rt.cur.vc...)
+	}
 	go rt.threadMain(t, f, false)
 	rt.Point(KSpawn)
 }
@@ -455,19 +475,21 @@ func Logf(format string, a ...interface{}) {
 }
 
 // ---- goroutines
-func GoN(name string, f func())                                 { R.spawn(name, f) }
-func Go0(f func())                                              { R.spawn("", f) }
-func Go1[A any](f func(A), a A)                                 { R.spawn("", func() { f(a) }) }
-func Go2[A, B any](f func(A, B), a A, b B)                      { R.spawn("", func() { f(a, b) }) }
-func Go3[A, B, C any](f func(A, B, C), a A, b B, c C)           { R.spawn("", func() { f(a, b, c) }) }
-func Go4[A, B, C, D any](f func(A, B, C, D), a A, b B, c C, d D) { R.spawn("", func() { f(a, b, c, d) }) }
+func GoN(name string, f func())                       { R.spawn(name, f) }
+func Go0(f func())                                    { R.spawn("", f) }
+func Go1[A any](f func(A), a A)                       { R.spawn("", func() { f(a) }) }
+func Go2[A, B any](f func(A, B), a A, b B)            { R.spawn("", func() { f(a, b) }) }
+func Go3[A, B, C any](f func(A, B, C), a A, b B, c C) { R.spawn("", func() { f(a, b, c) }) }
+func Go4[A, B, C, D any](f func(A, B, C, D), a A, b B, c C, d D) {
+	R.spawn("", func() { f(a, b, c, d) })
+}
 func Go5[A, B, C, D, E any](f func(A, B, C, D, E), a A, b B, c C, d D, e E) {
 	R.spawn("", func() { f(a, b, c, d, e) })
 }
 
 // Go*R variants for functions with a result (go f(x) discards it).
-func Go0R[Z any](f func() Z)                  { R.spawn("", func() { f() }) }
-func Go1R[A, Z any](f func(A) Z, a A)         { R.spawn("", func() { f(a) }) }
+func Go0R[Z any](f func() Z)                     { R.spawn("", func() { f() }) }
+func Go1R[A, Z any](f func(A) Z, a A)            { R.spawn("", func() { f(a) }) }
 func Go2R[A, B, Z any](f func(A, B) Z, a A, b B) { R.spawn("", func() { f(a, b) }) }
 func Go3R[A, B, C, Z any](f func(A, B, C) Z, a A, b B, c C) {
 	R.spawn("", func() { f(a, b, c) })
